@@ -23,6 +23,7 @@ import (
 	"encoding/json"
 	"flag"
 	"fmt"
+	"net"
 	"os"
 	"os/exec"
 	"runtime"
@@ -50,6 +51,8 @@ const (
 	cRemove      = 5
 	cSrvClose    = 9
 	cLsnClose    = 10
+	cReplaceOK   = 20
+	cReplaceFail = 21
 
 	stCanRecv   = 1 << 0
 	stClosed    = 1 << 2
@@ -59,6 +62,7 @@ const (
 	stRecvClose = 1 << 6
 	stWakeClose = 1 << 7
 	stShutWait  = 1 << 15
+	stReplacing = 1 << 14
 )
 
 // Scn is one scenario (also the replay format: the "input" of a replay file).
@@ -754,6 +758,151 @@ func runFresh(k int, sc Scn, r *vh.Rand) (res Res) {
 	return res
 }
 
+// runReplace: histories of Listener.Close / Listener.Replace on a running Listener; codes 10 =
+// Close, 20 = Replace to a free address, 21 = Replace to an address that is in use (a second
+// socket is bound first, so the bind fails), 9 = Server.Close.  The calls of one phase start
+// together; every call runs under recover (it is the caller's goroutine that would panic).
+func runReplace(k int, sc Scn, r *vh.Rand) (res Res) {
+	res.K, res.Returned, res.Extra = k, true, map[string]int{}
+	fail := func(what, key string) { res.Fails = append(res.Fails, failRec{what, key}) }
+	base := runtime.NumGoroutine()
+	srv := c2.NewServer(logx.NOP)
+	srv.Keys.Fill()
+	l, err := srv.Listen("c16p", "127.0.0.1:0", cfg.Static{L: com.TCP})
+	if err != nil {
+		panic("listen: " + err.Error())
+	}
+	time.Sleep(2 * time.Millisecond) // let the event thread take the listener (start-up races are other scenarios)
+	busy, err := net.Listen("tcp", "127.0.0.1:0")
+	if err != nil {
+		panic("listen: " + err.Error())
+	}
+	defer busy.Close()
+	var (
+		mu                            sync.Mutex
+		closeIssued, failIssued, down bool
+		okReturned                    int
+	)
+	for pi, ph := range sc.Phases {
+		var (
+			wg    sync.WaitGroup
+			start = make(chan struct{})
+			done  = make(chan struct{})
+		)
+		for ti, code := range ph {
+			d := time.Duration(0)
+			if ti < len(sc.DelayUs) {
+				d = time.Duration(sc.DelayUs[ti]) * time.Microsecond
+			}
+			wg.Add(1)
+			go func(code int, d time.Duration) {
+				defer wg.Done()
+				defer func() {
+					if x := recover(); x != nil {
+						mu.Lock()
+						res.Panic = true
+						if res.PanicMsg == "" {
+							res.PanicMsg = fmt.Sprint(x) + "\n" + string(debug.Stack())
+						}
+						mu.Unlock()
+					}
+				}()
+				<-start
+				if d > 0 {
+					time.Sleep(d)
+				}
+				switch code {
+				case cLsnClose:
+					l.Close()
+				case cSrvClose:
+					srv.Close()
+				case cReplaceOK:
+					if err := l.Replace("127.0.0.1:0", nil); err == nil {
+						mu.Lock()
+						okReturned++
+						mu.Unlock()
+					}
+				case cReplaceFail:
+					if err := l.Replace(busy.Addr().String(), nil); err == nil {
+						mu.Lock()
+						res.Obs = append(res.Obs, "Replace to an address in use did not fail")
+						mu.Unlock()
+					}
+				}
+			}(code, d)
+			switch code {
+			case cLsnClose:
+				closeIssued = true
+			case cSrvClose:
+				closeIssued, down = true, true
+			case cReplaceFail:
+				failIssued = true
+			}
+		}
+		close(start)
+		go func() { wg.Wait(); close(done) }()
+		if !waitCh(done, 3*time.Second) {
+			res.Returned = false
+			fail(fmt.Sprintf("a Listener call of phase %d %v did not return within 3 s (history %v)", pi, ph, sc.Phases), "listener-call-hang")
+			break
+		}
+		time.Sleep(time.Duration(40+10*sc.SleepMs) * time.Millisecond) // > the 30 ms nap of the accept loop
+	}
+	if res.Panic {
+		first := res.PanicMsg
+		if i := strings.Index(first, "\n"); i > 0 {
+			first = first[:i]
+		}
+		fail("a Listener.Close / Replace call panicked: "+first, "listener-call-panic")
+	}
+	if res.Returned && (closeIssued || failIssued) {
+		// a failed Replace closes the Listener itself
+		if !waitCh(l.Done(), time.Second) {
+			fail(fmt.Sprintf("Listener.Wait/Done not released after Close / a failed Replace (history %v)", sc.Phases), "listener-wait")
+		}
+	}
+	if res.Returned && !closeIssued && !failIssued {
+		// only successful Replaces: the Listener must still serve, on the new address
+		if c2.VerifC16ListenerState(l)&(stClosed|stClosing) != 0 || c2.VerifC16ListenerNil(l) {
+			fail("the Listener is closed / has no socket after successful Replace calls only", "replace-ok-closed")
+		} else if cn, err := net.DialTimeout("tcp", l.Address(), time.Second); err != nil {
+			fail("the replaced Listener does not accept connections on its new address: "+err.Error(), "replace-ok-no-accept")
+		} else {
+			cn.Close()
+		}
+	}
+	if down && res.Returned {
+		if !waitCh(srv.Done(), time.Second) {
+			fail("Server.Wait/Done not released after Close", "server-wait")
+		}
+	}
+	st := c2.VerifC16ListenerState(l)
+	res.Final = []int64{b2i(st&stClosed != 0), chanObs(l.Done()), chanObs(srv.Done()), b2i(st&stReplacing != 0), b2i(c2.VerifC16ListenerNil(l))}
+	cl := make(chan struct{})
+	go func() {
+		defer func() { recover(); close(cl) }()
+		l.Close()
+		srv.Close()
+	}()
+	if !waitCh(cl, 3*time.Second) {
+		fail(fmt.Sprintf("clean-up (Listener.Close, Server.Close) did not return within 3 s (history %v)", sc.Phases), "listener-cleanup-hang")
+		res.Returned = false
+	}
+	if n := settleGoroutines(base, 1500*time.Millisecond); n > base {
+		buf := make([]byte, 1<<16)
+		buf = buf[:runtime.Stack(buf, true)]
+		what := "other"
+		if strings.Contains(string(buf), "/c2.(*Listener).listen(") {
+			what = "listener"
+		} else if strings.Contains(string(buf), "/c2.(*Server).listen(") {
+			what = "server"
+		}
+		fail(fmt.Sprintf("goroutines did not return to the baseline after the Listener history %v: %d > %d (%s)", sc.Phases, n, base, what), "goroutine-baseline-replace-"+what)
+	}
+	_ = okReturned
+	return res
+}
+
 // ---------------------------------------------------------------- scenario generation
 
 var instants = []string{"registered", "idle", "queued-client", "queued-server", "queued-both", "fragments", "mid-exchange"}
@@ -790,6 +939,31 @@ func gen(r *vh.Rand, tier string) []Scn {
 	}
 	add(Scn{Kind: "remove-race", Variant: "started", Pairs: rr})
 	add(Scn{Kind: "remove-race", Variant: "idle", Pairs: rr / 4})
+	rp := func(phases ...[]int) Scn { return Scn{Kind: "replace", Instant: "listener", Phases: phases} }
+	add(rp([]int{cReplaceOK}))
+	add(rp([]int{cReplaceFail}))
+	add(rp([]int{cReplaceOK}, []int{cLsnClose}))
+	add(rp([]int{cLsnClose}, []int{cReplaceOK}))
+	add(rp([]int{cReplaceFail}, []int{cLsnClose}))
+	add(rp([]int{cLsnClose}, []int{cReplaceFail}))
+	add(rp([]int{cReplaceOK}, []int{cReplaceOK}, []int{cLsnClose, cLsnClose}))
+	add(rp([]int{cReplaceOK}, []int{cReplaceFail}, []int{cSrvClose}))
+	add(rp([]int{cReplaceFail}, []int{cSrvClose}))
+	add(rp([]int{cReplaceFail}, []int{cReplaceOK}))
+	add(rp([]int{cReplaceFail}, []int{cReplaceFail}, []int{cReplaceOK}, []int{cLsnClose}))
+	add(rp([]int{cLsnClose}, []int{cReplaceOK}, []int{cReplaceFail}, []int{cLsnClose}))
+	add(rp([]int{cReplaceOK}, []int{cSrvClose, cLsnClose}))
+	for i := 0; i < 3; i++ {
+		// two Replace calls at once (serialised by the Listener's lock since edac22b+1)
+		add(rp([]int{cReplaceOK, cReplaceOK}, []int{cLsnClose}))
+		add(rp([]int{cReplaceOK, cReplaceFail}))
+		s1 := rp([]int{cReplaceOK, cLsnClose})
+		s1.DelayUs = []int{r.Intn(200), r.Intn(200)}
+		add(s1)
+		s2 := rp([]int{cReplaceFail, cLsnClose})
+		s2.DelayUs = []int{r.Intn(200), r.Intn(200)}
+		add(s2)
+	}
 	add(Scn{Kind: "fresh", Variant: "never-listened", Phases: [][]int{{cSrvClose}}})
 	add(Scn{Kind: "fresh", Variant: "never-listened", Phases: [][]int{{cSrvClose, cSrvClose, cSrvClose, cSrvClose}, {cSrvClose}}})
 	add(Scn{Kind: "fresh", Variant: "listen-failed", Phases: [][]int{{cSrvClose}}})
@@ -934,6 +1108,8 @@ func childMain(file string, from int, seed uint64) {
 			res = runRemoveRace(k, scs[k], r)
 		} else if scs[k].Kind == "fresh" {
 			res = runFresh(k, scs[k], r)
+		} else if scs[k].Kind == "replace" {
+			res = runReplace(k, scs[k], r)
 		} else {
 			res = runE2E(k, scs[k], r)
 		}
@@ -1122,6 +1298,15 @@ func main() {
 			term := fmt.Sprintf("CRun %s %s %s true %s %s %s %s %s", coqBool(sc.Cpk), coqBool(sc.Spk), coqBool(sc.Chm), coqBool(sc.Cbk),
 				phasesCoq(sc.Phases), coqBool(res.Panic), coqBool(res.Returned), vh.ZList64(res.Final))
 			out.Add(term, classOf(sc), nontrivial, desc)
+		} else if sc.Kind == "replace" && len(res.Final) == 5 && func() bool {
+			for _, ph := range sc.Phases { // concurrent calls: the final bits depend on who came first
+				if len(ph) != 1 {
+					return false
+				}
+			}
+			return true
+		}() {
+			out.Add(fmt.Sprintf("CLsn %s %s %s %s", phasesCoq(sc.Phases), coqBool(res.Panic), coqBool(res.Returned), vh.ZList64(res.Final)), classOf(sc), nontrivial, desc)
 		} else if sc.Kind == "stress" && res.Returned {
 			// the model runs one racing group (the calls of the variant) under the round-robin schedule
 			calls := map[string][]int64{"pair": {7, 7}, "quad": {7, 7, 7, 7}, "close-vs-shutdown": {7, 4}}[sc.Variant]
